@@ -231,7 +231,10 @@ def run(eng: Engine, ck: Check):
     ck.ob('R-C17-WRITE', r, r.node, 'read() returns every stored record', ok, '', construct='read all')
 
     # ---- R-C17-KEY
-    keys = [n for n in walk_local(w.node) if isinstance(n, ast.Assign) and unparse(n.targets[0]) == 'key']
+    # the local used as subscript of the shelf in `database[key] = transfer`
+    key_names = {unparse(st_.targets[0].slice) for st_ in stores if isinstance(st_.targets[0].slice, ast.Name)}
+    tvar = next((a_.target.id for st_ in stores for a_ in ancestors(st_) if isinstance(a_, ast.For) and isinstance(a_.target, ast.Name)), 'transfer')
+    keys = [n for n in walk_local(w.node) if isinstance(n, ast.Assign) and unparse(n.targets[0]) in key_names]
     ck.floor('R-C17-KEY', len(keys), 1)
     for k in keys:
         material = None
@@ -240,7 +243,7 @@ def run(eng: Engine, ck: Check):
                 material = x.func.value
         if material is None:
             raise AnalysisError('R-C17-KEY: key derivation idiom not recognised')
-        used = sorted({n.attr for n in ast.walk(material) if isinstance(n, ast.Attribute) and unparse(n.value) == 'transfer'})
+        used = sorted({n.attr for n in ast.walk(material) if isinstance(n, ast.Attribute) and unparse(n.value) == tvar})
         ck.ob('R-C17-KEY', w, k, 'the cache key is derived from the identity fields', used == ['direction', 'remote_path', 'username'], f'{used}', construct='key fields')
         # injective encoding: plain concatenation of >= 2 variable-length strings is not
         parts = []
